@@ -169,7 +169,7 @@ CLAIMS = [
                 'CDF / cdf_fn (relu6 and sigmoid, mean / none reductions, all scaling types) - for ALL parameter values. One '
                 'genuine defect (None interior parameters rejected) found and repaired by a fix: commit.',
         'note': 'Trusted: operator contracts, axioms for softmax/sigmoid/exp/log, NonNeg constraint of Keras, z3/cvc5, reals for '
-                'floats. Not proved: the [0, 1+eps] bound of the geometric-mean reduction (only its monotonicity). Bounded: 2-3/4 '
+                'floats. Geometric-mean reduction: 0 < out <= 1 + eps via log/exp monotonicity instances at constant end points. Bounded: 2-3/4 '
                 'keypoints, units <= 2, input_dim <= 2.',
         'design_ref': 'DESIGN.md section 4 C15',
     },
